@@ -766,6 +766,17 @@ type modAddr struct {
 
 // modAddrs expands one `modifies` item: an lvalue, or elems(s).
 func (en *env) modAddrs(m Expr) []modAddr {
+	if c, ok := m.(*ECall); ok && c.Fun == "spare" {
+		// spare(s): the spare capacity of s (cells len(s) .. cap(s)-1 of its backing array)
+		s := en.eval(c.Args[0])
+		sl, ok := s.typ.Underlying().(*types.Slice)
+		if !ok {
+			en.fail("spare() of %s", s.typ)
+		}
+		reg := fmt.Sprintf("(mkslice %s %s %s %s)", app("s_base", s.term), app("bvadd", app("s_off", s.term), app("s_len", s.term)),
+			app("bvsub", app("s_cap", s.term), app("s_len", s.term)), app("bvsub", app("s_cap", s.term), app("s_len", s.term)))
+		return []modAddr{{region: reg, sort: en.e.sortOf(sl.Elem()), typ: sl.Elem()}}
+	}
 	if c, ok := m.(*ECall); ok && c.Fun == "elems" {
 		s := en.eval(c.Args[0])
 		sl, ok := s.typ.Underlying().(*types.Slice)
